@@ -11,7 +11,7 @@ FACTS_FOR = {
             "errorAttributionUnmap", "errorAttributionReadAt", "removeBackendTail", "removeReplicaTail"],
     "C06": ["fullWritePunch", "preloadPunch", "removeIndexSnapIndx", "lookupBody"],
     "C07": ["locks_VerifyRebuildReplica", "locks_addReplica", "verifyOrder", "verifyChainGuard", "verifySlices", "canAdd", "addReplicaNoLockRechecks", "addReplicaOrder", "writeWidensForWO", "widenForWO"],
-    "C09": ["locks_RegisterReplica", "locks_Start", "canSignal", "electionLoop", "electionInit", "electionSkipsRebuildingRegistrant", "startLoops", "startOneOrder"],
+    "C09": ["locks_RegisterReplica", "locks_Start", "canSignal", "electionLoop", "electionInit", "electionSkipsRebuildingRegistrant", "startLoops", "startOneOrder", "syncAddOrder", "syncVerifyOrder", "mwWriteOk"],
     "C10": ["replicaWriteCounter", "increaseRevisionCounter", "getRevisionCounter", "guard_Replica_SetRevisionCounter", "verifyOrder"],
     "C11": ["cleanerActionLoop", "cleanerPreconditions", "cleanerConds", "cleanerSlices", "removeIndexShifts", "removeIndexBody", "removeIndexSnapIndx",
             "guard_Replica_PrepareRemoveDisk", "guard_Replica_RemoveDiffDisk"],
@@ -31,7 +31,7 @@ FACTS_FOR = {
     "C18": ["locks_addReplica", "locks_RemoveReplica", "locks_SetReplicaMode", "locks_Start", "startOverRF", "startGuardBeforeReset", "startLoops", "buildReadWriters", "removeBackendTail", "canAdd", "addReplicaNoLockRechecks", "addReplicaOrder", "removeReplicaTail", "volStatusCounts"],
 }
 
-ENGINES = ["replicadiff", "ctldiff", "rpcdiff", "restdiff", "crashdiff"]
+ENGINES = ["replicadiff", "ctldiff", "rpcdiff", "restdiff", "crashdiff", "clusterdiff"]
 
 FS = ["modelled: the file system is a sparse block map per file (pwrite of whole 4 KiB blocks, fallocate PUNCH_HOLE, holes read zero, FIEMAP reports exactly the allocated blocks)",
       "modelled: sparse.FoldFile (sfold) copies exactly the allocated blocks of the child onto the parent (third-party; exercised in-process by the harness)",
@@ -81,9 +81,15 @@ PROPS = {
                          "tie to the Lean replica model: the state after a completed operation and a reopen must be the one the model specifies (chain, attributes, counter, size, data)",
                          "assumed: kernel atomicity of a single call (rename, link, unlink, O_SYNC write of a small record); power-loss reordering is out of scope (process death + the directory-flush check)",
                          "strace counts per tracee thread: the victim runs the operation on one locked OS thread with GOMAXPROCS=1"]},
-    "C09": {"lean": CTLMOD, "prefixes": ["c09_", "maxRevCount_", "ctl_reachable_inv"],
-            "runs": [ctl("election", 480, 30, 9000, 40, 15)], "modelled": CTL + [
-                "partial: the replica-side registration loop (sync.AddReplica, 5 s ticker) is modelled as 'registration may repeat'"]},
+    "C09": {"lean": CTLMOD + ["JivaVerif.Properties.C09Restart"], "prefixes": ["c09_", "maxRevCount_", "ctl_reachable_inv", "inv_step", "inv_run", "countP_overlap", "legalLeader_spec"],
+            "runs": [ctl("election", 480, 30, 9000, 40, 15),
+                     {"engine": "clusterdiff", "profile": "healthy", "salt": 71, "quick": {"n": 320, "len": 40, "timeout": 900}, "thorough": {"n": 6000, "len": 50, "timeout": 3000}},
+                     {"engine": "clusterdiff", "profile": "any", "salt": 72, "quick": {"n": 320, "len": 40, "timeout": 900}, "thorough": {"n": 6000, "len": 50, "timeout": 3000}}],
+            "modelled": CTL + [
+                "partial: the replica-side registration loop (sync.AddReplica, 5 s ticker) is modelled as 'registration may repeat'",
+                "the last sentence of C09 (stop and restart) is stated over the whole-volume model Model/Cluster.lean: replica directories (writes held, persisted counter, persisted rebuilding flag) under one controller whose gate, acknowledgement rule and election are the controller model's; c09_restart_serves_acked is proved for every history whose stops find a quorum of replicas RW and not rebuilding; c09_unhealthy_stop_loses_ack shows the hypothesis is needed (known finding, DESIGN 6.3)",
+                "tie of the whole-volume model: clusterdiff drives the REAL controller (restarted at every stop; registration, election, Start, WriteAt with failing and failed-but-applied replicas, AddReplica, VerifyRebuildReplica, RemoveReplica) over replica stand-ins that keep the persisted state of a replica directory, and compares every step with `drv cluster`; beside that it checks on the implementation side that every replica listed RW holds every acknowledged write",
+                "assumed in the whole-volume model (proved / tied at the replica level, not here): an RW replica counts each write it applies and a WO replica does not (C10), a promoted replica holds what its source holds (C07) and takes its counter (c10_promotion), attaching a WO replica and persisting its rebuilding flag is one step (sync.Task.AddReplica does CreateReplica, then SetRebuilding(true): T1 fact syncAddOrder)"]},
     "C13": {"lean": CTLMOD, "prefixes": ["c13_", "ctl_reachable_inv"],
             "runs": [ctl("snapshots", 480, 30, 9000, 40, 16), dict(rep("rebuild", 160, 30, 1500, 40, 38), **{"thorough": {"n": 1500, "len": 40, "timeout": 6000}})],
             "modelled": CTL + ["data half: in the rebuild profile, once all three real replicas are RW, volume snapshots are taken through the real controller between foreground writes and the chains and volume images of the three replicas are compared with each other (request cmp) and with the model"]},
